@@ -46,6 +46,8 @@ type Case struct {
 	Workers   int // concurrent variant
 	// Bulky: most certificates carry 300-450 KiB of padding and the ranges read are long (> 1 MiB of entries)
 	Bulky bool
+	// Verbosity is the process-wide klog -v level (debug logging must not change what is stored or served)
+	Verbosity int
 }
 
 // genSpec draws chain specs from a small space so that issuers repeat (chains de-duplicate in storage).
@@ -156,6 +158,9 @@ func genCase(t *rapid.T, faults bool) Case {
 		c.TTLms = rapid.SampledFrom([]int{0, 0, 3600000, 3600000, 3600000, 3600000, 3600000, 2}).Draw(t, "ttl")
 	}
 	c.Steps = genSteps(t, rapid.IntRange(4, 30).Draw(t, "n"), faults)
+	if rapid.IntRange(0, 3).Draw(t, "verbose") == 0 {
+		c.Verbosity = rapid.IntRange(1, 5).Draw(t, "v")
+	}
 	if rapid.IntRange(0, 11).Draw(t, "bulky") == 0 {
 		c.Bulky = true
 		for i := range c.Steps {
@@ -557,6 +562,11 @@ func (r *rig) submit(v *harness.Verdict, s *world.ChainSpec) {
 }
 
 func check(t *testing.T, c Case) (v harness.Verdict) {
+	if c.Verbosity > 0 {
+		harness.SetKlogVerbosity(c.Verbosity)
+		defer harness.SetKlogVerbosity(0)
+		v.Class(fmt.Sprintf("klog-v=%d", c.Verbosity))
+	}
 	r := newRig(t, c)
 	seqNs := uint64(1)
 	reads := 0
